@@ -255,6 +255,19 @@ def run_real(case):
                 got = fn().full()
                 if np.abs(got - V).max() > 1e-9 * (1 + np.abs(V).max()):
                     extra.append(("args-" + nm, f"evaluating at t={t} with the arguments in force given again ({nm}) changes the value"))
+            # evaluating with other arguments (call-time, or on a copy / a derived object) leaves this object alone
+            try:
+                obj(float(t), w=3)
+                obj(float(t), {"w": 5})
+                qutip.QobjEvo(obj, args={"w": 7})(float(t))
+                y2 = obj.copy()
+                y2.arguments({"w": 9})
+                (obj * 2)(float(t), w=4)
+            except Exception as e:      # noqa
+                extra.append(("args-other-raises", f"evaluating with other arguments raises {type(e).__name__}: {e}"[:200]))
+            again = obj(float(t)).full()
+            if np.abs(again - V).max() > 1e-9 * (1 + np.abs(V).max()):
+                extra.append(("args-leak", f"after evaluating with other arguments, Q({t}) itself changed by {np.abs(again - V).max():.2e}"))
             for fmt in ("dense", "csr"):
                 st = qutip.Qobj(psi).to(fmt)
                 got = obj.matmul(float(t), st).full()
